@@ -44,7 +44,7 @@ PROFILES: dict[str, dict] = {
     'C10': dict(w=dict(BASE, N=4, V=5, H=3, X=5, C=2, T=0.5, S=0.2), relevant='NVXH', handles=True),
     'C11': dict(w=dict(BASE, D=5, N=3, V=3, C=2, T=2), relevant='D', pool_edits=0.45),
     'C14': dict(w=dict(BASE, C=8, N=2, V=2, T=0.5, S=0.5), relevant='C', comment_dense=True),
-    'C17': dict(w=dict(BASE, S=8, C=1.5, N=1.5, V=1.5, T=1), relevant='S'),
+    'C17': dict(w=dict(BASE, S=8, C=1.5, N=1.5, V=1.5, T=1), relevant='S', adjacency=True),
     'C18': dict(w=dict(BASE, V=6, N=3, T=1, S=0.2), relevant='VN', focus_classes=['Transaction', 'Posting', 'MetaItem', 'Open', 'Balance'],
                 indent_play=True),
     'C19': dict(w=dict(BASE, F=4, N=3, V=3, C=1.5, D=1.5, K=1), relevant='F'),
@@ -255,6 +255,59 @@ class DocSim(core.Engine):
                 return [Violation('C11', 'independence', step, f'{what} changed the store of {where}, which the operation did not address')]
         return []
 
+    def check_adjacent_spacing(self, sess: Session, step: int) -> list[Violation]:
+        """C17: adjacent models see the same run of spacing from their two sides."""
+        root = sess.root
+        for _, node in W.iter_nodes(root):
+            if isinstance(node, models.RawTokenModel):
+                continue
+            kids = []
+            for name, kind, c in W.children(node):
+                if c is None:
+                    continue
+                if isinstance(c, I.Repeated):
+                    kids.extend(c.items)
+                else:
+                    kids.append(c)
+            kids = [k for k in kids if hasattr(k, 'raw_spacing_after')]
+            for a, b in zip(kids, kids[1:]):
+                try:
+                    if not any(t.raw_text for t in a.tokens) or not any(t.raw_text for t in b.tokens):
+                        continue    # zero-width marks have no side of their own
+                    # Only when nothing visible but spacing lies strictly between them, the spacing is not
+                    # interleaved with zero-width marks, and neither side reaches into the other model's span.
+                    st = root.token_store
+                    region = []
+                    t = st.get_next(a.last_token)
+                    while t is not None and t is not b.first_token and len(region) < 64:
+                        region.append(t)
+                        t = st.get_next(t)
+                    if t is not b.first_token:
+                        continue
+                    if any(x.raw_text and not isinstance(x, (models.Whitespace, models.Newline)) for x in region):
+                        continue
+                    vis = [k for k, x in enumerate(region) if x.raw_text]
+                    if not vis or any(not region[k].raw_text for k in range(vis[0], vis[-1] + 1)):
+                        continue
+                    expect = tuple(region[k] for k in vis)
+                    ra, rb = tuple(a.raw_spacing_after), tuple(b.raw_spacing_before)
+                except Exception:
+                    continue
+                for side, got in (('spacing_after of ' + type(a).__name__, ra), ('spacing_before of ' + type(b).__name__, rb)):
+                    if len(got) != len(expect) or any(x is not y for x, y in zip(got, expect)):
+                        return [Violation('C17', 'adjacent_models_disagree', step,
+                                          f'{side} is {"".join(t.raw_text for t in got)!r} but the spacing between {type(a).__name__} and '
+                                          f'{type(b).__name__} is {"".join(t.raw_text for t in expect)!r}')]
+        return []
+
+    def check_indents(self, sess: Session, snap: dict, step: int, what: str) -> list[Violation]:
+        """C18: no existing line's indentation changes (Indent tokens that survive keep their text)."""
+        for key, (node, store, before) in snap.items():
+            for t, txt in before:
+                if isinstance(t, models.Indent) and t.raw_text != txt and t.store_handle is not None:
+                    return [Violation('C18', 'existing_indent_changed', step, f'{what}: an existing indent changed {txt!r} -> {t.raw_text!r}')]
+        return []
+
     def eq_check(self, sess: Session, S: Any, step: int, eff: docops.Effect) -> list[Violation]:
         V: list[Violation] = []
         root = sess.root
@@ -265,6 +318,23 @@ class DocSim(core.Engine):
         if e1 != e2:
             V.append(Violation('C20', 'symmetry', step, f'root == snapshot is {e1} but snapshot == root is {e2}'))
             return V
+        if step % 5 == 0:
+            text = print_model(root)
+            try:
+                p1, p2 = parser().parse(text, models.File), parser().parse(text, models.File)
+            except Exception:
+                p1 = p2 = None
+            if p1 is not None and (not (p1 == p2) or not (p2 == p1)):
+                return [Violation('C20', 'parse_twice_unequal', step, 'parsing the same text twice gives unequal models')]
+            toks = [t for t in root.token_store if t.raw_text][:200]
+            seen: dict = {}
+            for t in toks:
+                k = (type(t).RULE, t.raw_text)
+                o = seen.setdefault(k, t)
+                if o is not t and (o == t) and hash(o) != hash(t):
+                    return [Violation('C20', 'hash_consistency', step, f'equal tokens {o!r} and {t!r} hash differently')]
+                if o is not t and not (o == t and t == o):
+                    return [Violation('C20', 'token_equality', step, f'tokens with the same rule and text compare unequal: {o!r} {t!r}')]
         same_text = print_model(root) == print_model(S)
         same_struct = W.struct_fp(root) == W.struct_fp(S)
         if same_text and same_struct:
@@ -469,6 +539,10 @@ class DocSim(core.Engine):
         group(lambda: self.check_views(sess, step))
         if profile.get('reparse') and eff.outcome == 'ok' and not eff.noop_expected:
             group(lambda: self.check_reparse(sess, step, eff))
+        if profile.get('adjacency'):
+            group(lambda: self.check_adjacent_spacing(sess, step))
+        if eff.outcome == 'ok' and eff.cls in ('N', 'V', 'C', 'R', 'D') and not eff.kind.startswith('set_val:value_required'):
+            group(lambda: self.check_indents(sess, snap, step, what))
         if S is not None and eff.outcome == 'ok':
             group(lambda: self.eq_check(sess, S, step, eff))
         if V:
